@@ -627,6 +627,70 @@ def _destructfast_rule(chk, prog):
 _run_commit_only = run
 
 
+
+PAIRLOOP_EXCEPTIONS = {
+    ("compile.c", "janetc_maker"): "folds a struct / table literal whose slots were produced pairwise by janetc_toslotskv from a parsed "
+                                   "literal: the slot vector always holds an even number of entries",
+    ("parse.c", "close_struct"): "called only after `state->argn & 1` was rejected by the closing-delimiter handler (root, parse.c)",
+    ("parse.c", "close_table"): "as close_struct",
+}
+
+
+def _pairloop_rule(chk, prog):
+    """A loop that walks key/value pairs reads a[i] and a[i + 1] and steps by two.  With `i < n` as its only bound it
+    reads a[n] on the last round when n is odd - one element past what it was given.  (make_struct_n, which builds the
+    struct for &keys parameters, did exactly that: in a tail call the cell behind the arguments holds a stale value, and
+    the dangling key got it.)  The bound has to cover i + 1, or n has to be known even."""
+    rule = "C02-PAIRLOOP"
+    chk.rule(rule, "a loop that steps by two and reads element i + 1 is bounded so that i + 1 stays inside (or the count is known to be even)")
+    n = 0
+    for fn in prog.all_funcs():
+        for lp in fn.nodes:
+            if lp.k != "for" or lp.kids[1] is None or lp.kids[2] is None:
+                continue
+            inc = strip_casts(lp.kids[2])
+            if not (inc.k == "asg" and inc.op == "+=" and is_ref(inc.kids[0]) and strip_casts(inc.kids[1]).v == 2):
+                continue
+            iv = inc.kids[0].name
+            cond = strip_casts(lp.kids[1])
+            if not (cond.k == "bin" and cond.op in ("<", "<=") and is_ref(strip_casts(cond.kids[0]), iv)):
+                continue
+            reads = [x for x in lp.kids[3].walk() if x.k == "sub" and strip_casts(x.kids[1]).k == "bin" and strip_casts(x.kids[1]).op == "+"
+                     and is_ref(strip_casts(strip_casts(x.kids[1]).kids[0]), iv) and strip_casts(strip_casts(x.kids[1]).kids[1]).v == 1]
+            if not reads:
+                continue
+            n += 1
+            chk.instance(rule)
+            chk.analysed(fn)
+            bound = strip_casts(cond.kids[1])
+            btxt = bound.text().replace(" ", "")
+            ok = None
+            # the bound itself is made even, or is a constant
+            if bound.v is not None or (bound.k == "bin" and bound.op == "&") or (bound.k == "bin" and bound.op == "-" and strip_casts(bound.kids[1]).v == 1 and cond.op == "<"):
+                ok = "the bound is constant / masked even / n - 1"
+            if ok is None:
+                # a dominating test of the parity of the count: `if (n & 1) <leave>` (or !(n & 1) for loops starting at 1)
+                IN, T = flow.condition_facts(fn)
+                for x, S in flow.states_at(fn, IN, T):
+                    if x is not lp.kids[1]:
+                        continue
+                    if S and all(any((ln is not None and strip_casts(ln).k == "bin" and strip_casts(ln).op == "&" and strip_casts(strip_casts(ln).kids[1]).v == 1
+                                      and any(y.text().replace(" ", "") in btxt or btxt in y.text().replace(" ", "") for y in strip_casts(ln).kids[0].walk() if y.k in ("ref", "mem", "bin")))
+                                     for (op, l, r, toks, ln, rn) in ps) for ps in S):
+                        ok = "the parity of the count was tested before the loop"
+                    break
+            key = (fn.tu.name, fn.name)
+            if ok:
+                chk.ok(rule, "%s: pair loop over `%s`: %s" % (fn.name, btxt[:30], ok))
+            elif key in PAIRLOOP_EXCEPTIONS:
+                chk.exception(rule, "%s:%s" % key, PAIRLOOP_EXCEPTIONS[key])
+                chk.ok(rule, "%s: pair loop over `%s` (exception)" % (fn.name, btxt[:30]))
+            else:
+                chk.violation(rule, fn.tu.name, fn.name, "pairs:%s" % btxt[:30], lp.kids[1].loc,
+                              "the loop steps `%s` by two under `%s` and reads `%s`: for an odd count the last round reads one element past "
+                              "the end of what it was given" % (iv, cond.text()[:30], reads[0].text()[:40]))
+    chk.floor(rule, 8, n)
+
 def run(chk):   # noqa
     prog = Program.load("default")
     S = Summaries(prog)
@@ -642,3 +706,4 @@ def run(chk):   # noqa
     _destructfast_rule(chk, prog)
     from rules import c02_fields
     c02_fields.run(chk, prog)
+    _pairloop_rule(chk, Program.load("default"))
